@@ -145,6 +145,51 @@ struct ReplayOutcome {
     hash_got: String,
 }
 
+/// Replay of a `hang` file: the run is regenerated from its seed on a thread of
+/// its own; not returning within the limit reproduces the finding.
+fn replay_hang(doc: &serde_json::Value, path: &str) -> i32 {
+    let Some(spec) = doc["property"].as_str().and_then(props::find) else {
+        return 2;
+    };
+    let tier = match doc["tier"].as_str() {
+        Some("thorough") => Tier::Thorough,
+        _ => Tier::Quick,
+    };
+    let run_seed = doc["run_seed"].as_u64().unwrap_or(0);
+    let limit = Duration::from_secs(env_u64("VERIF_HANG_SECS", 120).min(60));
+    let (tx, rx) = std::sync::mpsc::channel();
+    let id = spec.id;
+    std::thread::Builder::new()
+        .stack_size(16 << 20)
+        .spawn(move || {
+            let f = props::runner(id, tier);
+            let mut ch = Choices::generate(run_seed);
+            let mut rep = RunReport::new(false);
+            let out = run_one(&*f, &mut ch, &mut rep);
+            let _ = tx.send(match out {
+                Ok(Outcome::Violation(v)) => format!("violation {}", v.class),
+                Ok(_) => "ok".to_string(),
+                Err(e) => format!("error {e}"),
+            });
+        })
+        .expect("spawn");
+    match rx.recv_timeout(limit) {
+        Err(_) => {
+            println!(
+                "replay property={} expected_class=halt:run_does_not_return got_class=halt:run_does_not_return (no return within {} s)",
+                spec.id,
+                limit.as_secs()
+            );
+            println!("VIOLATION property={} replay={}", spec.id, path);
+            std::process::exit(1);
+        }
+        Ok(what) => {
+            println!("replay property={} expected_class=halt:run_does_not_return got_class=- (the run returned: {what})", spec.id);
+            0
+        }
+    }
+}
+
 fn do_replay(path: &str) -> Result<ReplayOutcome, String> {
     let s = std::fs::read_to_string(path).map_err(|e| format!("{path}: {e}"))?;
     let doc: serde_json::Value = serde_json::from_str(&s).map_err(|e| e.to_string())?;
@@ -253,6 +298,13 @@ fn cmd_replay(args: &[String]) -> i32 {
         return 2;
     };
     let verify = args.iter().any(|a| a == "--verify");
+    if let Ok(s) = std::fs::read_to_string(path) {
+        if let Ok(doc) = serde_json::from_str::<serde_json::Value>(&s) {
+            if doc["hang"].as_bool() == Some(true) {
+                return replay_hang(&doc, path);
+            }
+        }
+    }
     match do_replay(path) {
         Err(e) => {
             eprintln!("replay error: {e}");
@@ -350,6 +402,39 @@ fn cmd_run(args: &[String]) -> i32 {
     }
 
     let f = props::runner(spec.id, tier);
+    // a run that does not come back: the code under test blocks or spins for ever.
+    // Reported from the monitor thread, which then ends the process (the stuck
+    // worker cannot be joined).
+    let hang_after = Duration::from_secs(env_u64("VERIF_HANG_SECS", 120));
+    let (prop_id, engine, tier_name) = (spec.id, spec.engine, tier.name());
+    let rdir = replay_dir.clone();
+    let on_hang = move |index: u64, run_seed: u64| {
+        let name = format!("{prop_id}-{seed}-hang-{run_seed:016x}.json");
+        let path = format!("{rdir}/{name}");
+        let doc = serde_json::json!({
+            "property": prop_id,
+            "engine": engine,
+            "harness_version": HARNESS_VERSION,
+            "tier": tier_name,
+            "base_seed": seed,
+            "run_index": index,
+            "run_seed": run_seed,
+            "class": "halt:run_does_not_return",
+            "message": format!("run {index} (seed {run_seed}) has not returned after {} s of wall-clock time: the code under test blocks or loops for ever", hang_after.as_secs()),
+            "hang": true,
+            "choices": [],
+            "trace_hash": "",
+            "trace": [],
+        });
+        let _ = std::fs::create_dir_all(&rdir);
+        let _ = std::fs::write(&path, serde_json::to_string_pretty(&doc).unwrap());
+        println!(
+            "violation in run {index} (seed {run_seed}): [halt:run_does_not_return] the run has not returned after {} s: the code under test blocks or loops for ever",
+            hang_after.as_secs()
+        );
+        println!("VIOLATION property={prop_id} replay={path}");
+        std::process::exit(1);
+    };
     let cfg = BatchCfg {
         property: spec.id,
         seed,
@@ -358,6 +443,8 @@ fn cmd_run(args: &[String]) -> i32 {
         wall_cap,
         known: &known,
         samples: 3,
+        on_hang: Some(&on_hang),
+        hang_after,
     };
     let res = run_batch(&cfg, &*f);
     let wall_s = res.wall.as_secs_f64();
